@@ -267,45 +267,6 @@ add("parse_finish", "h_expand.c", "h_parse_finish", {"C05": "quick", "C07": "qui
     bounds="last input block of 1..2 words with 0..3 padding bytes; parser start word, stop position (0..15 bits left) and garbage count (0/16/32) symbolic",
     assumptions=EXP_ASM + ["parse() stub: consumes all available words, leaves <16 bits, reports FINISH with the given garbage count"])
 
-# ------------------------------------------------------------------------------- compress.c scheduler
-COMP_ASM = ["codec entry points (collect/encode/transmit) replaced by contract stubs; collect consumes an arbitrary non-empty prefix",
-            "pthread primitives are no-ops; the scheduler lock is owned by the harness",
-            "RG steps: the state at every lock acquisition is arbitrary subject to the monitor invariant INV of h_compress.c (rely); C12 (all shared state accessed under the lock) is assumed"]
-def comp_ob(name, entry, props, bounds, funcs, wit, unwind=12, to=600, real_heap=False, **kw):
-    add(name, "h_compress.c", entry, props, cbmc=["--unwind", str(unwind)], backend="kissat", timeout=to, mem_gb=8, object_bits=10,
-        extra_src=[("process.c", ["-include", "/verif/harness/proc_rename.h"])] if real_heap else [], defines=(["-DREAL_HEAP"] if real_heap else []) + list(kw.pop("defines", [])),
-        functions=funcs + (["src/process.c:up_heap", "src/process.c:down_heap"] if real_heap else []) + ["src/process.h:pqueue macros"], bounds=bounds,
-        assumptions=COMP_ASM + ([] if real_heap else ["up_heap()/down_heap() replaced by a bag with correct head extraction in this query (order inside the queue is irrelevant to the invariant); the real helpers are checked by heap_ops"]),
-        witnesses=wit, **kw)
-for _nb, _tier in ((2, "quick"), (3, "thorough")):
-  comp_ob("stream_frame" if _nb == 2 else "stream_frame_3blk", "h_stream_frame", {"C02": _tier, "C03": _tier, "C18": _tier, "C11": _tier, "C01": _tier},
-        "two streams in one process, levels 1..9 each, first stream 1..%d blocks with arbitrary CRCs arriving at the reorder queue in any rotation, second stream empty or one block" % _nb,
-        ["src/compress.c:init", "src/compress.c:uninit", "src/compress.c:write_header", "src/compress.c:write_trailer", "src/compress.c:can_reorder", "src/compress.c:do_reorder", "src/encode.h:combine_crc"],
-        ["blocks_arrive_out_of_order", "second_stream_written", "empty_second_stream"], real_heap=True, defines=["-DNBLK=%d" % _nb], to=1800)
-RGP = {"C11": "quick", "C13": "quick", "C03": "quick"}
-RGB = "worker count symbolic 1..3 (slot totals 2w / 2w+2), all counters, queue sizes and queue contents arbitrary subject to INV; one task execution with re-havoc at every lock release"
-comp_ob("rg_transmit", "h_rg_transmit", RGP, RGB, ["src/compress.c:can_transmit", "src/compress.c:do_transmit"], ["transmit_enabled", "transmit_on_reserved_slot"])
-comp_ob("rg_reorder", "h_rg_reorder", RGP, RGB, ["src/compress.c:can_reorder", "src/compress.c:do_reorder"], ["reorder_enabled"])
-comp_ob("rg_collect", "h_rg_collect", RGP, RGB, ["src/compress.c:can_collect", "src/compress.c:do_collect"], ["collect_enabled", "input_block_split"])
-comp_ob("rg_write_complete", "h_rg_write_complete", RGP, RGB, ["src/compress.c:on_write_complete"], ["write_completes"])
-comp_ob("rg_input_avail", "h_rg_input_avail", RGP, RGB, ["src/compress.c:on_input_avail"], ["input_block_arrives"])
-comp_ob("terminate_guard", "h_terminate_guard", {"C11": "quick"}, RGB, ["src/compress.c:can_terminate"], ["terminates"])
-comp_ob("heap_ops", "h_heap_ops", {"C11": "quick", "C03": "quick", "C10": "quick"}, "binary heap of <=5 elements with arbitrary positions satisfying the heap order; one insertion or one removal",
-        [], ["heap_insert", "heap_remove"], real_heap=True)
-
-# ------------------------------------------------------------------------------- expand.c block-level checks
-EXP_ASM = ["codec entry points (parse/scan/retrieve/decode/emit) replaced by contract stubs", "scheduler lock and I/O threads stubbed (single-threaded query); heap helpers replaced by a bag with correct head extraction (real helpers: heap_ops)"]
-add("reorder_checks", "h_expand.c", "h_reorder_checks", {"C05": "quick", "C15": "quick", "C07": "quick", "C06": "quick"}, cbmc=["--unwind", "20"], backend="kissat", timeout=300, mem_gb=6,
-    functions=["src/expand.c:do_reorder", "src/expand.c:can_reorder", "src/expand.c:init", "src/process.h:deque/pqueue macros"],
-    witnesses=["fatal_error_reported", "bogus_candidate_dropped", "partial_block_written", "block_accepted"],
-    bounds="one finished output block against one parsed block header; positions, both CRCs, block size, status (every enum value) and level symbolic (complete for this step)",
-    assumptions=EXP_ASM)
-add("parse_finish", "h_expand.c", "h_parse_finish", {"C05": "quick", "C07": "quick", "C09": "quick"}, cbmc=["--unwind", "20"], backend="kissat", timeout=300, mem_gb=6,
-    functions=["src/expand.c:do_parse (FINISH branch)", "src/expand.c:attach", "src/expand.c:detach", "src/expand.c:advance", "src/expand.c:bits_init", "src/expand.c:on_input_avail", "src/expand.c:can_parse", "src/expand.c:init"],
-    witnesses=["fatal_error_reported", "end_inside_a_padded_word_accepted", "garbage_word_given_back"],
-    bounds="last input block of 1..2 words with 0..3 padding bytes; parser start word, stop position (0..15 bits left) and garbage count (0/16/32) symbolic",
-    assumptions=EXP_ASM + ["parse() stub: consumes all available words, leaves <16 bits, reports FINISH with the given garbage count"])
-
 add("emit_step", "h_emit.c", "h_emit_step", {"C09": "quick", "C05": "quick", "C06": "quick", "C01": "quick"}, defines=["-DNB=4", "-DVMAX=2", "-DMB=3"], extra_src=["crctab.c"],
     cbmc=["--unwind", "14", "--unwindset", "emit.0:4,emit.1:4,emit.2:4,emit.3:4,emit.4:5"], backend="kissat", timeout=600, mem_gb=6, functions=EMIT_FUNCS,
     witnesses=["suspended_with_fresh_byte_pending", "suspended_inside_run_expansion", "suspended_before_fourth_equal_byte", "block_finished", "missing_run_length"],
@@ -333,25 +294,7 @@ for _sy, _nm in enumerate(("runa", "runb", "byte", "eob")):
                      "run-state invariant: run >= 2^shift - 1, and the last accepted RUN symbol found run <= MAX_BLOCK_SIZE (established by this step)"],
         outside=["inverse-MTF list states other than the initial one (mtf_one() on a used sliding list)", "production block size 900000"])
 
-# ------------------------------------------------------------------------------- block header stages of retrieve(): bitmap, counts, selectors
-HDR_ASM = ["execution cut at hooks VERIF_POINT(SELECTOR) (beyond the selector reachable with one input word), DELTA_DONE, HEADER_DONE",
-           "one 32-bit input word per step; z3 back end (the retriever state holds 8 KB / 32 KB arrays written at symbolic indices)"]
-add("bitmap_counts", "h_header.c", "h_bitmap_step", {"C05": "quick", "C06": "quick", "C07": "quick"}, witness=False, nowitness_reason="z3 needs minutes to produce a model for the witness twin of this query (timed out at 10 min); the main query is not vacuous by construction: its assumptions are plain range constraints on the inputs", cbmc=["--unwind", "18"], backend="z3", timeout=600, mem_gb=8, extra_src=["crctab.c"],
-    functions=["src/decode.c:retrieve (states S_BITMAP_SMALL .. S_SELECTOR_MTF)"],
-    witnesses=["next_bucket_loaded", "empty_buckets_skipped", "bitmap_complete", "empty_alphabet", "bad_table_count", "no_selectors"],
-    bounds="resume inside the symbol map at any of the 16 buckets with any map bits, any later bucket descriptor and any count of used values so far; one input word; "
-           "after the last bucket: alphabet size, 3-bit table count, 15-bit selector count, first selector",
-    assumptions=HDR_ASM, outside=["content of the inverse-MTF start list (see bitmap_content)"])
-add("bitmap_content", "h_header.c", "h_bitmap_step", {"C05": "thorough", "C06": "thorough"}, witness=False, nowitness_reason="the twin needs one z3 call per witness point and did not finish in 15 min; reachability of the same paths is shown by bitmap_counts", defines=["-DCONTENT", "-DCONTENT_ALPHA0=0"], cbmc=["--unwind", "18"], backend="z3", timeout=900, mem_gb=8, extra_src=["crctab.c"],
-    functions=["src/decode.c:retrieve (state S_BITMAP_SMALL)"], witnesses=["next_bucket_loaded"],
-    bounds="one bucket (any of the first 15, any 16 map bits) processed from list position 0, next bucket non-empty: the used byte values are stored in increasing order",
-    assumptions=HDR_ASM, outside=["list positions other than 0 at the start of the bucket (the store index is alpha_size, checked by bitmap_counts)"])
-add("selector_step", "h_header.c", "h_selector_step", {"C05": "quick", "C06": "quick", "C07": "quick"}, witness=False, nowitness_reason="z3 needs minutes to produce a model for the witness twin of this query (timed out at 10 min); the main query is not vacuous by construction: its assumptions are plain range constraints on the inputs", cbmc=["--unwind", "18"], backend="z3", timeout=300, mem_gb=8, extra_src=["crctab.c"],
-    functions=["src/decode.c:retrieve (state S_SELECTOR_MTF)", "src/decode.c:table[] (first-zero table)"],
-    witnesses=["selector_names_missing_table", "selector_stored", "longest_selector_code"],
-    bounds="one selector from any position of a list of 1..32767 selectors, 2..6 tables, any 32 input bits", assumptions=HDR_ASM)
 
-# ===== keep this section LAST: it derives obligations from everything registered above =====
 
 # ------------------------------------------------------------------------------- block header stages of retrieve(): bitmap, counts, selectors
 HDR_ASM = ["execution cut at hooks VERIF_POINT(SELECTOR) (beyond the selector reachable with one input word), DELTA_DONE, HEADER_DONE",
@@ -392,3 +335,6 @@ for _o in list(OBLIGATIONS):
         _u.outside = list(_o.outside) + ["pointer-overflow (forming an out-of-bounds pointer without dereferencing it) is not checked", "decisions on uninitialised memory are visible only as functional failures of the twin obligation"]
         OBLIGATIONS.append(_u)
 
+
+# registry sanity: names are unique
+assert len({o.name for o in OBLIGATIONS}) == len(OBLIGATIONS), "duplicate obligation names: %s" % sorted({o.name for o in OBLIGATIONS if [x.name for x in OBLIGATIONS].count(o.name) > 1})
